@@ -96,12 +96,12 @@ package keeper
 //@   ensures [C05.rollback.restore.c] old(has(Metadata, dataId)) && len(old(Metadata[dataId].Commits)) > 0 && len(old(Metadata[dataId].Orders)) > 0 ==> Metadata[dataId].OrderId == old(Metadata[dataId].Orders)[len(old(Metadata[dataId].Orders)) - 1]
 //@   ensures [C05.rollback.restore.d] old(has(Metadata, dataId)) && len(old(Metadata[dataId].Commits)) > 0 && len(old(Metadata[dataId].Orders)) > 0 ==> Metadata[dataId].Commits == old(Metadata[dataId].Commits) && Metadata[dataId].Orders == old(Metadata[dataId].Orders)
 //@   ensures [C05.rollback.restore.e] old(has(Metadata, dataId)) && len(old(Metadata[dataId].Commits)) > 0 && len(old(Metadata[dataId].Orders)) > 0 ==> Metadata[dataId].Owner == old(Metadata[dataId].Owner) && Metadata[dataId].DataId == dataId && Metadata[dataId].ReadonlyDids == old(Metadata[dataId].ReadonlyDids) && Metadata[dataId].ReadwriteDids == old(Metadata[dataId].ReadwriteDids)
-//@   ensures [C11.rollback.sched] old(has(Metadata, dataId)) && len(old(Metadata[dataId].Commits)) > 0 && len(old(Metadata[dataId].Orders)) > 0 ==>
+//@   ensures [C11.rollback.sched] [C13.rollback.sched] old(has(Metadata, dataId)) && len(old(Metadata[dataId].Commits)) > 0 && len(old(Metadata[dataId].Orders)) > 0 ==>
 //@       forall h int :: 0 <= h && h <= MaxUint64 && has(ExpiredData, h) && contains(ExpiredData[h].Data, dataId) ==> h == u64(Metadata[dataId].CreatedAt + Metadata[dataId].Duration)
-//@   ensures [C11.rollback.sched.present] old(has(Metadata, dataId)) && len(old(Metadata[dataId].Commits)) > 0 && len(old(Metadata[dataId].Orders)) > 0
+//@   ensures [C11.rollback.sched.present] [C13.rollback.sched.present] old(has(Metadata, dataId)) && len(old(Metadata[dataId].Commits)) > 0 && len(old(Metadata[dataId].Orders)) > 0
 //@       && old(has(ExpiredData, u64(Metadata[dataId].CreatedAt + Metadata[dataId].Duration)) && contains(ExpiredData[u64(Metadata[dataId].CreatedAt + Metadata[dataId].Duration)].Data, dataId)) ==>
 //@       has(ExpiredData, u64(Metadata[dataId].CreatedAt + Metadata[dataId].Duration)) && contains(ExpiredData[u64(Metadata[dataId].CreatedAt + Metadata[dataId].Duration)].Data, dataId)
-//@   ensures [C05.rollback.remove] old(has(Metadata, dataId)) && len(old(Metadata[dataId].Commits)) == 0 ==> !has(Metadata, dataId)
+//@   ensures [C05.rollback.remove] [C13.rollback.remove] old(has(Metadata, dataId)) && len(old(Metadata[dataId].Commits)) == 0 ==> !has(Metadata, dataId)
 //@       && !has(Model, sprintf("%s-%s-%s", old(Metadata[dataId].Owner), old(Metadata[dataId].Alias), old(Metadata[dataId].GroupId)))
 //@   ensures [C05.rollback.unschedule] old(has(Metadata, dataId)) && len(old(Metadata[dataId].Commits)) == 0 ==>
 //@       forall h int :: 0 <= h && h <= MaxUint64 && has(ExpiredData, h) ==> !contains(ExpiredData[h].Data, dataId)
@@ -148,7 +148,7 @@ package keeper
 //@ func (Keeper) DeleteMeta(ctx, dataId) (err)
 //@   nopanic [C02.deletemeta.nopanic]
 //@   modifies Metadata[dataId], Model[sprintf("%s-%s-%s", Metadata[dataId].Owner, Metadata[dataId].Alias, Metadata[dataId].GroupId)]
-//@   ensures [C09.deletemeta] err == nil ==> old(has(Metadata, dataId)) && !has(Metadata, dataId) && !has(Model, sprintf("%s-%s-%s", old(Metadata[dataId].Owner), old(Metadata[dataId].Alias), old(Metadata[dataId].GroupId)))
+//@   ensures [C09.deletemeta] [C13.deletemeta] err == nil ==> old(has(Metadata, dataId)) && !has(Metadata, dataId) && !has(Model, sprintf("%s-%s-%s", old(Metadata[dataId].Owner), old(Metadata[dataId].Alias), old(Metadata[dataId].GroupId)))
 //@   ensures [C09.deletemeta.err] err != nil ==> !old(has(Metadata, dataId)) && !has(Metadata, dataId)
 
 // ExtendMetaDuration: the model's deletion is moved to expiredAt if that is later than its current deletion height
@@ -237,7 +237,7 @@ package keeper
 //@   ensures [C09.newmeta.fresh] err == nil ==> !old(has(Metadata, metadata.DataId)) && has(Metadata, metadata.DataId) && Metadata[metadata.DataId] == metadata
 //@   ensures [C13.newmeta.alias] err == nil ==> !old(has(Model, sprintf("%s-%s-%s", metadata.Owner, metadata.Alias, metadata.GroupId)))
 //@       && has(Model, sprintf("%s-%s-%s", metadata.Owner, metadata.Alias, metadata.GroupId)) && Model[sprintf("%s-%s-%s", metadata.Owner, metadata.Alias, metadata.GroupId)].Data == metadata.DataId
-//@   ensures [C11.newmeta.sched] err == nil ==> has(ExpiredData, u64(order.CreatedAt + order.Duration)) && contains(ExpiredData[u64(order.CreatedAt + order.Duration)].Data, metadata.DataId)
+//@   ensures [C11.newmeta.sched] [C13.newmeta.sched] err == nil ==> has(ExpiredData, u64(order.CreatedAt + order.Duration)) && contains(ExpiredData[u64(order.CreatedAt + order.Duration)].Data, metadata.DataId)
 //@   ensures [C09.newmeta.err] err != nil ==> Metadata[metadata.DataId] == old(Metadata[metadata.DataId]) && (has(Metadata, metadata.DataId) <==> old(has(Metadata, metadata.DataId)))
 
 // UpdateMetaStatusAndCommit marks an update of an existing model as in flight
